@@ -121,8 +121,15 @@ CHECKS = {
              'meet it) the model\'s write_data = absWrite on the partition\'s levels; (4) combined on the container model '
              '(C18_write_hash_path): level 4 = overlay at the reader position, chains intact, no file byte outside the partition '
              'window and the header/table area changes; plus position bookkeeping, read-only error, no-op writes, '
-             'descriptor/header hash update for DIFF and DISA, CMAC inputs.  Not theorems (decided by correspondence + reference '
-             'reader): that a re-opened container parses back to the same state, and cache soundness after a write in the same session.',
+             'descriptor/header hash update for DIFF and DISA, CMAC inputs; (5) the re-open theorem (C18_reopen_session): open a '
+             'container meeting decidable regularity conditions (regularB: geometry, DPFS tables outside the data windows, '
+             'well-formed descriptor, header/table below the partitions, descriptors and windows apart - evaluated on every '
+             'generated image: all meet them), make ANY sequence of seeks, reads and writes through the verified views of its '
+             'partitions: re-opening the file gives exactly the state the session holds (header, descriptors, new master hashes, '
+             'DPFS selection), for DIFF and for one- and two-partition DISA; the regularity conditions are part of the invariant '
+             'and proved to survive every operation; ingredients: descriptor round trip (C20_partdesc), the in-partition frame of '
+             'a write, the header/descriptor/CMAC update.  Not a theorem (decided by correspondence + reference reader): cache '
+             'soundness after a write in the same session.',
         note=COMMON_NOTE + 'SHA-256/AES-CMAC executable in the driver, parameters in theorems; partial updates after an '
              'IndexError inside a write are not modelled (history ends there).',
         technique='Lean 4 proof (refinement to an abstract hash tree, invariants) + model/implementation correspondence',
